@@ -23,6 +23,22 @@ TU and only handed out as base_cache by the factory functions, which is checked)
   are analysed (pure = no store through anything but by-value locals, transitively); std:: methods go by name
   (MUT/READ lists); an unknown name is an error.
 * helper methods of mem_cache are inlined at their call sites (with their own guards, if any).
+* a call of a mem_cache method that takes a lock itself (a *locking* method, e.g. store's `remove(key)`):
+  - made while a lock is held: inlined like any helper, i.e. the callee's guard scope becomes a NESTED scope; if it
+    re-takes a lock that is already held (non-recursive pthread rwlock/mutex: the thread blocks on itself) the
+    translator records a `deadlock` diagnostic (the check reports it) and the emitted table fails `ordered`;
+  - made while NO lock is held, directly in the entry method, outside every loop and every try block, as a complete
+    statement in TAIL position - the rest of its block consists of simple statements (no nested block, no control
+    flow) that declare no guard and call no locking method, the last of them `return`; or `return callee(..)`; or the
+    last statement of the method: the method gets an ALTERNATIVE PATH - a second table entry under the same method name whose scope tree is: the guard scopes that
+    textually precede the call (control flow is forward only: no loop, no goto) followed by the callee's scope tree.
+    The main path is the method without the call.  Every table theorem quantifies over all entries, hence over all
+    paths; the interleaving semantics picks any entry at a call.  (`alt_paths` in the generated file names caller,
+    callee and path; Props.v proves that each path has exactly the critical sections of its callee.)
+  - made while no lock is held but NOT in such a tail position: inlined sequentially (the callee's critical section
+    and the caller's later ones are siblings) - the table then fails `two_phase`, as it must: the call as a whole is
+    not atomic.
+  The dynamic callee of the virtual call is the method of this class: checked that no class derives from mem_cache.
 * anything not understood (guard in a loop or not directly in a block, any other use of a guard object or of
   the mutex members, goto, lambda, unknown expression/statement kind, unknown method name) raises Unsupported:
   the check fails closed.
@@ -145,6 +161,9 @@ class Extractor:
         self.locks = []           # lock field names in order of first use
         self.itmap = {}           # iterator type string -> set(regions)
         self.pure_cache = {}
+        self.locking_cache = {}
+        self.diagnostics = []     # (kind, text): kind 'deadlock' = a lock re-taken while held
+        self.alt_info = []        # (caller, callee, path index) of the alternative paths
         self.build_itmap()
 
     # ---------------------------------------------------------------- regions of iterator types
@@ -217,6 +236,79 @@ class Extractor:
         if c.get('kind') == 'MemberExpr':
             return c.get('referencedMemberDecl')
         return None
+
+    def is_locking(self, did):
+        """does the mem_cache method declare an RAII guard, directly or through other mem_cache methods"""
+        if did in self.locking_cache:
+            return self.locking_cache[did]
+        self.locking_cache[did] = False          # recursion: decided by the rest of the body
+        res = False
+
+        def walk(n):
+            nonlocal res
+            if res:
+                return
+            k = n.get('kind')
+            if k == 'VarDecl' and (GUARD_RE.search(qt(n)) or GUARD_RE.search(n.get('type', {}).get('qualType', ''))):
+                res = True
+                return
+            if k == 'CXXMemberCallExpr':
+                cal = strip_casts(kids(n)[0])
+                d2 = cal.get('referencedMemberDecl') if cal.get('kind') == 'MemberExpr' else None
+                if d2 in self.methods and d2 != did and self.is_locking(d2):
+                    res = True
+                    return
+            for c in kids(n):
+                walk(c)
+        walk(body_of(self.methods[did]))
+        self.locking_cache[did] = res
+        return res
+
+    def locking_call(self, n):
+        """decl id of the callee if statement/expression n is (modulo casts/cleanups) a call of a locking mem_cache
+        method on this, else None"""
+        if n is None:
+            return None
+        e = strip_casts(n)
+        if e.get('kind') != 'CXXMemberCallExpr':
+            return None
+        cal = strip_casts(kids(e)[0])
+        if cal.get('kind') != 'MemberExpr':
+            return None
+        did = cal.get('referencedMemberDecl')
+        if did in self.methods and self.is_locking(did):
+            return did
+        return None
+
+    def simple_lockfree(self, n):
+        """statement n is an expression / declaration / return statement (no nested block, no control flow) that declares no guard
+        and calls no locking method"""
+        if n.get('kind') in ('CompoundStmt', 'IfStmt', 'ForStmt', 'WhileStmt', 'DoStmt', 'CXXForRangeStmt', 'SwitchStmt', 'CXXTryStmt',
+                             'GotoStmt', 'LabelStmt', 'BreakStmt', 'ContinueStmt'):
+            return False
+        ok = True
+
+        def walk(x):
+            nonlocal ok
+            if not ok:
+                return
+            k = x.get('kind')
+            if k == 'VarDecl' and (GUARD_RE.search(qt(x)) or GUARD_RE.search(x.get('type', {}).get('qualType', ''))):
+                ok = False
+                return
+            if k in ('LambdaExpr', 'StmtExpr'):
+                ok = False
+                return
+            if k == 'CXXMemberCallExpr':
+                cal = strip_casts(kids(x)[0])
+                d2 = cal.get('referencedMemberDecl') if cal.get('kind') == 'MemberExpr' else None
+                if d2 in self.methods and self.is_locking(d2):
+                    ok = False
+                    return
+            for c in kids(x):
+                walk(c)
+        walk(n)
+        return ok
 
     def method_effect(self, decl_id, name):
         """'R' or 'W' for a member call on a tracked object"""
@@ -475,7 +567,9 @@ class Extractor:
         k = n.get('kind')
         if k == 'CompoundStmt':
             saved = self.cur
-            for s in kids(n):
+            saved_held = list(self.held)
+            ss = kids(n)
+            for idx, s in enumerate(ss):
                 if s.get('kind') == 'DeclStmt':
                     for vd in kids(s):
                         if vd.get('kind') != 'VarDecl':
@@ -485,16 +579,38 @@ class Extractor:
                             if in_loop:
                                 raise Unsupported('guard declared inside a loop in ' + self.cur_method)
                             self.guard_vars.add(vd['id'])
+                            if g[0] in [h for h, _ in self.held]:
+                                via = self.methods[self.stack[-1]]['name']
+                                self.diagnostics.append(('deadlock', '%s: %s is taken%s while this thread already holds it (%s): '
+                                                         'the lock is not recursive, the thread blocks on itself' % (
+                                                             self.cur_method, g[0], ' (inside the call of %s())' % via if len(self.stack) > 1 else '',
+                                                             ', '.join('%s:%s' % h for h in self.held))))
                             # the lock expression itself is evaluated in the enclosing scope
                             self.rec({g[0]}, 'R')
                             sc = Scope(g[0], g[1])
                             self.cur.children.append(sc)
                             self.cur = sc
+                            self.held.append(g)
                         else:
                             self.vardecl(vd)
-                else:
-                    self.stmt(s, in_loop)
+                    continue
+                # a call of a locking method at a point where no lock is held, in tail position: alternative path
+                did = self.locking_call(s)
+                ret_call = None
+                if did is None and s.get('kind') == 'ReturnStmt' and len(kids(s)) == 1:
+                    ret_call = self.locking_call(kids(s)[0])
+                if (did is not None or ret_call is not None) and not self.held and len(self.stack) == 1 \
+                        and not in_loop and self.loop_depth == 0 and self.try_depth_guarded == 0:
+                    rest = ss[idx + 1:]
+                    # tail position: nothing but simple, lock-free statements follow in this block and the last one is `return`
+                    tail = ret_call is not None or (not rest and n is self.method_body) or \
+                        (rest and rest[-1].get('kind') == 'ReturnStmt' and all(self.simple_lockfree(r) for r in rest))
+                    if tail:
+                        self.alt_path(strip_casts(s) if did is not None else strip_casts(kids(s)[0]), did if did is not None else ret_call)
+                        continue
+                self.stmt(s, in_loop)
             self.cur = saved
+            self.held = saved_held
             return
         if k == 'DeclStmt':
             for vd in kids(n):
@@ -513,7 +629,16 @@ class Extractor:
                 self.stmt(c, True)
             self.loop_depth -= 1
             return
-        if k in ('ReturnStmt', 'CXXTryStmt', 'CXXCatchStmt', 'SwitchStmt', 'CaseStmt', 'DefaultStmt'):
+        if k == 'CXXTryStmt':
+            # a call made inside the try BLOCK is never a tail call: a handler of this try may run after it
+            cs = kids(n)
+            self.try_depth_guarded += 1
+            self.stmt(cs[0], in_loop)
+            self.try_depth_guarded -= 1
+            for c in cs[1:]:
+                self.stmt(c, in_loop)
+            return
+        if k in ('ReturnStmt', 'CXXCatchStmt', 'SwitchStmt', 'CaseStmt', 'DefaultStmt'):
             for c in kids(n):
                 if c.get('kind') == 'VarDecl':      # catch parameter
                     continue
@@ -548,6 +673,24 @@ class Extractor:
         self.stmt(body_of(self.methods[did]), self.loop_depth > 0)
         self.stack.pop()
 
+    def alt_path(self, call, did):
+        """`call` = CXXMemberCallExpr of the locking method `did`, no lock held, next thing the method does is return:
+        record the path  <guard scopes textually before the call> ; <scope tree of the callee>"""
+        for a in kids(call)[1:]:
+            self.expr(a, self.arg_ctx(a))
+        root = self.cur
+        if root.lock is not None or root is not self.root:
+            raise Unsupported('internal: alternative path outside the root scope')
+        before = list(root.children)
+        tmp = Scope()
+        self.cur = tmp
+        self.inline(did)
+        self.cur = root
+        path = Scope()
+        path.acc = tmp.acc           # completed with the root accesses of the caller at the end of run_method
+        path.children = before + tmp.children
+        self.alts.append((self.methods[did]['name'], path))
+
     def run_method(self, name):
         ms = [m for m in self.methods.values() if m['name'] == name]
         if len(ms) != 1:
@@ -557,10 +700,20 @@ class Extractor:
         self.guard_vars = set()
         self.stack = [m['id']]
         self.loop_depth = 0
+        self.try_depth_guarded = 0
+        self.held = []
+        self.alts = []
         root = Scope()
+        self.root = root
         self.cur = root
-        self.stmt(body_of(m), False)
-        return root
+        self.method_body = body_of(m)
+        self.stmt(self.method_body, False)
+        paths = [root]
+        for callee, p in self.alts:
+            p.acc = set(p.acc) | set(root.acc)      # conservative: everything the caller touches outside its locks
+            self.alt_info.append((name, callee, len(paths)))
+            paths.append(p)
+        return paths
 
     def run(self):
         # which members are mutexes
@@ -672,6 +825,7 @@ def match_brace(s, i):
 
 def lexical(repo, field_names, cfield_names, entry):
     src = strip_comments(open(os.path.join(repo, 'src/cache_storage.cpp')).read())
+    src = re.sub(r'\bthis\s*->\s*', '', src)        # this->member / this->method(..) = member / method(..)
     m = re.search(r'class\s+mem_cache\s*:\s*public\s+base_cache\s*\{', src)
     if not m:
         raise Unsupported('lexical: class mem_cache not found')
@@ -695,8 +849,44 @@ def lexical(repo, field_names, cfield_names, entry):
         params[name] = set(re.findall(r'(\w+)\s*(?:,|$)', mm.group(2).replace('\n', ' ')))
     guard_re = re.compile(r'\b(rdlock_guard|wrlock_guard|lock_guard)\s+\w+\s*\(\s*\*\s*(\w+)\s*\)\s*;')
     out = {}
+    if re.search(r'(?:public|protected|private|:|,)\s*mem_cache\b\s*(?:<[^{;]*>)?\s*(?:,|\{)', src[ce:]) or \
+            re.search(r'(?:public|protected|private)\s+mem_cache\b', src):
+        raise Unsupported('lexical: a class derives from mem_cache (virtual calls inside the class may reach an override)')
+    calls = []          # (entry method, called entry method, lock path at the call, followed by return?)
 
-    def flush(name, seg, cur, acc, locals_, depth):
+    def after_call(seg, pos):
+        """text after the call whose name ends at pos: skip the balanced argument list and `;`"""
+        i = seg.index('(', pos)
+        d = 0
+        for j in range(i, len(seg)):
+            if seg[j] == '(':
+                d += 1
+            elif seg[j] == ')':
+                d -= 1
+                if d == 0:
+                    return seg[j + 1:]
+        return ''
+
+    ctl_re = re.compile(r'\b(if|else|for|while|do|switch|try|catch|goto|break|continue)\b')
+
+    def is_tail(pre, rest, at_end):
+        """the call is `return f(..);`, or the rest of the block is simple statements without guards / calls of entry methods, the
+        last of them a return"""
+        if re.search(r'\breturn\s*$', pre) is not None and re.match(r'\s*;', rest) is not None:
+            return True
+        m0 = re.match(r'\s*;', rest)
+        if not m0 or not at_end:
+            return False
+        body = rest[m0.end():]
+        if ctl_re.search(body) or guard_re.search(body):
+            return False
+        for w in re.finditer(r'(?<![\w\.>])(\w+)\s*\(', body):
+            if w.group(1) in bodies:
+                return False                      # any call of a class method after it: not accepted as tail (conservative)
+        stmts = [x.strip() for x in body.split(';') if x.strip()]
+        return bool(stmts) and re.match(r'return\b', stmts[-1]) is not None
+
+    def flush(name, seg, cur, acc, locals_, depth, at_end=False):
         for d in re.finditer(r'\b(?:pointer|time_t|unsigned|size_t|triggers_ptr|string_type)\s+(\w+)\s*[=;(]', seg):
             locals_.add(d.group(1))
         for idm in re.finditer(r'(?<![\w\.>])(\w+)\b(?!\s*::)', seg):
@@ -704,7 +894,9 @@ def lexical(repo, field_names, cfield_names, entry):
             pre = seg[:idm.start()].rstrip()
             if w in field_names and w not in locals_ and not pre.endswith('.') and not pre.endswith('->'):
                 acc.add((cur, w))
-            elif w in bodies and w != name and w not in entry and re.match(r'\s*\(', seg[idm.end():]):
+            elif w in bodies and w != name and re.match(r'\s*\(', seg[idm.end():]):
+                if w in entry:
+                    calls.append((name if depth == 0 else None, w, cur, is_tail(pre, after_call(seg, idm.end()), at_end)))
                 scan(w, bodies[w], cur, acc, set(params.get(w, ())), depth + 1)
         for cm in re.finditer(r'(?:(?:\.|->)second|\bcont)\s*\.\s*(\w+)', seg):
             if 'c.' + cm.group(1) in cfield_names:
@@ -737,7 +929,7 @@ def lexical(repo, field_names, cfield_names, entry):
                 seg_start = i
                 continue
             i += 1
-        flush(name, text[seg_start:n], cur, acc, locals_, depth)
+        flush(name, text[seg_start:n], cur, acc, locals_, depth, at_end=True)
 
     for name in entry:
         if name not in bodies:
@@ -745,7 +937,7 @@ def lexical(repo, field_names, cfield_names, entry):
         acc = set()
         scan(name, bodies[name], (), acc, set(params.get(name, ())))
         out[name] = acc
-    return out
+    return out, calls
 
 
 def flatten(scope, path=()):
@@ -757,12 +949,24 @@ def flatten(scope, path=()):
     return s
 
 
+def cross_check_calls(alt_info, calls):
+    """the alternative paths of the AST side = the calls of entry methods that the lexical side sees directly in an entry
+    method, outside every guard, followed by return"""
+    a = sorted((caller, callee) for caller, callee, _ in alt_info)
+    l = sorted((caller, callee) for caller, callee, path, tail in calls if caller is not None and path == () and tail)
+    if a != l:
+        raise Unsupported('AST and lexical extractors disagree on the calls of locking methods in tail position outside every lock: '
+                          '%r vs %r' % (a, l))
+
+
 def cross_check(tabs, lex, top_fields):
     """compare on top-level fields named literally in the text plus container members written as .second.X / cont.X.
     The AST side additionally derives accesses the text does not spell out (iterator dereferences, c.* writes implied
     by primary.erase, ...), so the AST set must be a superset of the lexical set, and every lock path must coincide."""
-    for name, sc in tabs.items():
-        a = flatten(sc)
+    for name, paths in tabs.items():
+        a = set()
+        for sc in paths:
+            a |= flatten(sc)
         l = lex[name]
         if set(p for p, _ in a) != set(p for p, _ in l):
             raise Unsupported('AST and lexical extractors disagree on the lock scopes of %s: %r vs %r' % (
@@ -798,8 +1002,9 @@ def emit(tabs, ex, prim, src):
                 edges.add((o, sc_.lock))
         for c in sc_.children:
             collect(c, o2)
-    for s_ in tabs.values():
-        collect(s_, [])
+    for ps_ in tabs.values():
+        for s_ in ps_:
+            collect(s_, [])
     order, rest = [], list(locks)
     while rest:
         free = [l for l in rest if not any((o, l) in edges for o in rest if o != l)]
@@ -827,13 +1032,30 @@ def emit(tabs, ex, prim, src):
                         for f, rw in sorted(s.acc, key=lambda x: (fid[x[0]], x[1])))
         ch = (';\n'.join(sc(c, ind + '  ') for c in s.children))
         return '%sScope (%s)\n%s  [%s]\n%s  [%s]' % (ind, lk, ind, acc, ind, ('\n' + ch + '\n' + ind + '  ') if ch else '')
-    for name, s in tabs.items():
-        L.append('Definition m_%s : scope :=\n%s.' % (coq_ident(name), sc(s, '  ')))
-    L.append('Definition table : list (string * scope) := [%s].' % '; '.join('("%s", m_%s)' % (n, coq_ident(n)) for n in tabs))
+    callee_of = {(caller, idx): callee for caller, callee, idx in ex.alt_info}
+    entries, alts = [], []
+    for name, ps in tabs.items():
+        for i, s in enumerate(ps):
+            if i == 0:
+                ident = 'm_%s' % coq_ident(name)
+            else:
+                callee = callee_of[(name, i)]
+                ident = 'm_%s_via_%s' % (coq_ident(name), coq_ident(callee))
+                if any(ident == e[1] for e in entries):
+                    ident += '_%d' % i
+                L.append('(* alternative path of %s: the call %s(..) made outside every lock and followed by return *)' % (name, callee))
+                alts.append('("%s", "%s", %s)' % (name, callee, ident))
+            L.append('Definition %s : scope :=\n%s.' % (ident, sc(s, '  ')))
+            entries.append((name, ident))
+    L.append('(* one entry per PATH of a method: a call picks any entry (same name = alternative paths of one method) *)')
+    L.append('Definition table : list (string * scope) := [%s].' % '; '.join('("%s", %s)' % e for e in entries))
+    L.append('(* (caller, callee, path): paths that consist of a complete call of another entry method *)')
+    L.append('Definition alt_paths : list (string * string * scope) := [%s].' % '; '.join(alts))
     return '\n'.join(L) + '\n'
 
 
-def extract(repo, incs):
+def extract_tables(repo, incs):
+    """AST extractor + lexical extractor + their cross-checks on <repo>/src/cache_storage.cpp -> (tabs, ex)"""
     src = os.path.join(repo, 'src/cache_storage.cpp')
     objs = run_clang(src, 'cppcms::impl::', incs)
     ast = Ast(objs)
@@ -859,11 +1081,65 @@ def extract(repo, incs):
     want = {'fetch', 'store', 'rise', 'remove', 'clear', 'stats'}
     if not want <= set(tabs):
         raise Unsupported('entry methods missing: %r' % sorted(want - set(tabs)))
-    prim = lock_primitives(repo, incs)
     top = set(ex.fields.values())
-    lex = lexical(repo, top, set(ex.cfields.values()), list(tabs))
+    lex, calls = lexical(repo, top, set(ex.cfields.values()), list(tabs))
     cross_check(tabs, lex, top | set(ex.cfields.values()))
+    cross_check_calls(ex.alt_info, calls)
+    return tabs, ex
+
+
+def extract(repo, incs):
+    tabs, ex = extract_tables(repo, incs)
+    prim = lock_primitives(repo, incs)
     return tabs, ex, prim
+
+
+def selftest(repo, incs, tmpdir):
+    """translator self-test on textual variants of the CURRENT source (the handling of calls of locked methods must keep
+    failing closed): returns [(name, 'ok' | 'skipped: ..' | 'FAILED: ..')]"""
+    import shutil
+    text = open(os.path.join(repo, 'src/cache_storage.cpp')).read()
+    m = re.search(r'\n([ \t]*)remove\(key\);[ \t]*\n[ \t]*return;[ \t]*\n', text)
+    res = []
+    if not m:
+        return [('nested-locked-call', 'skipped: store has no `remove(key); return;`'), ('non-tail-locked-call', 'skipped: same'),
+                ('harmless-rewrite', 'skipped: same')]
+    variants = {
+        # remove() called while store holds access_lock: must be diagnosed as a self-deadlock
+        'nested-locked-call': text[:m.start()] + '\n' + m.group(1) + 'wrlock_guard lock(*access_lock);' + text[m.start():],
+        # remove() not followed by return: two critical sections in one call, no alternative path
+        'non-tail-locked-call': text[:m.start()] + '\n' + m.group(1) + 'remove(key);\n' + text[m.end():],
+        # behaviour-preserving rewrite: explicit this->, a local statement between the call and return: same lock structure
+        'harmless-rewrite': text[:m.start()] + '\n' + m.group(1) + 'this->remove(key);\n' + m.group(1) + 'int c09_unused = 0; (void)c09_unused;\n' +
+                            m.group(1) + 'return;\n' + text[m.end():],
+    }
+    for name, t in variants.items():
+        d = os.path.join(tmpdir, name)
+        shutil.rmtree(d, ignore_errors=True)
+        os.makedirs(os.path.join(d, 'src'))
+        with open(os.path.join(d, 'src', 'cache_storage.cpp'), 'w') as f:
+            f.write(t)
+        try:
+            tabs, ex = extract_tables(d, list(incs) + [os.path.join(repo, 'src')])
+            st = tabs['store']
+            if name == 'nested-locked-call':
+                ok = any(k == 'deadlock' for k, _ in ex.diagnostics) and not ex.alt_info
+                what = 'diagnostics=%r alt=%r' % (ex.diagnostics, ex.alt_info)
+            elif name == 'harmless-rewrite':
+                ok = [(a, b) for a, b, _ in ex.alt_info] == [('store', 'remove')] and not ex.diagnostics and \
+                    [len(p_.children) for p_ in st] == [1, 1]
+                what = 'alt=%r diagnostics=%r sections=%r' % (ex.alt_info, ex.diagnostics, [len(p_.children) for p_ in st])
+            else:
+                ok = not ex.alt_info and len(st) == 1 and len(st[0].children) == 2
+                what = 'alt=%r sections of store=%d' % (ex.alt_info, len(st[0].children))
+            res.append((name, 'ok' if ok else 'FAILED: ' + what))
+        except Unsupported as e:
+            if name == 'harmless-rewrite':
+                res.append((name, 'FAILED: translator refused a behaviour-preserving rewrite: %s' % str(e)[:200]))
+            else:
+                res.append((name, 'ok (translator refused: %s)' % str(e)[:200]))
+        shutil.rmtree(d, ignore_errors=True)
+    return res
 
 
 def generate(repo, incs, out_path):
@@ -881,5 +1157,7 @@ if __name__ == '__main__':
     repo = sys.argv[1] if len(sys.argv) > 1 else '/repo'
     incs = [repo, repo + '/booster', '/verif/.work/build', '/verif/.work/build/booster', repo + '/private']
     tabs, ex, prim = extract(repo, incs)
-    for n, s in tabs.items():
-        print(n, json.dumps(s.to_obj(), indent=1))
+    for n, ps in tabs.items():
+        for i, s in enumerate(ps):
+            print(n, 'path %d' % i, json.dumps(s.to_obj(), indent=1))
+    print('alt', ex.alt_info, 'diagnostics', ex.diagnostics)
